@@ -58,6 +58,7 @@ static void start(size_t size, vh_rng_t *r)
 	model = malloc(S + 1);
 	for (size_t i = 0; i < S; i++)
 		model[i] = buf[i] = (uint8_t)vh_next(r);
+	memset(&pk, 0xA5, sizeof(pk)); /* rf_pack_init starts afresh whatever the cursor object held */
 	rf_pack_init(&pk, buf, (unsigned)S);
 	cursor = 0;
 	overflowed = false;
